@@ -22,6 +22,7 @@ utf8inv = z3.Function("utf8inv", BSeq, z3.StringSort())
 utf8ok = z3.Function("utf8ok", BSeq, z3.BoolSort())  # the byte string is well-formed UTF-8
 tok_items = z3.Function("findall_items", Val, Val, z3.ArraySort(Int, Val))
 tok_len = z3.Function("findall_len", Val, Val, Int)
+arr_seq = z3.Function("frozen_bytes", z3.ArraySort(Int, Val), Int, BSeq)
 oid = Val.oid
 is_VOpaque = Val.is_VOpaque
 
@@ -67,7 +68,9 @@ def as_blob(eng, sv, st, what="bytes operand"):
             if not parts:
                 return z3.Empty(BSeq)
             return parts[0] if len(parts) == 1 else z3.Concat(*parts)
-        raise Unsupported("bytes value of symbolic length used as an immutable byte string")
+        # a mutable byte array of symbolic length, frozen: the sequence with the same length and elements
+        st.define(z3.Length(arr_seq(sv.t, sv.x)) == z3.If(sv.x >= 0, sv.x, 0))
+        return arr_seq(sv.t, sv.x)
     if sv.k == "val":
         # a bytes object, or an instance of gtirb's bytes subclass UnknownData (an object holding its bytes)
         ci = eng.prog.find_class("UnknownData")
